@@ -57,6 +57,10 @@ type GenOptions struct {
 	ErrorSites bool // deliberately ill-typed operations
 	Health     bool // append the fixed health suite (C11: the runtime still works after caught errors)
 	ErrInMeta  bool // metamethods and iterators that raise
+	// NoYieldInPcall: no coroutine.yield inside a pcall/xpcall body (golua's
+	// execution contexts do not follow a coroutine that yields inside a
+	// protected call: known finding of C07, kept out of the quota corpora)
+	NoYieldInPcall bool
 }
 
 func DefaultGenOptions() GenOptions {
